@@ -51,6 +51,12 @@ CHECKS = {
     "C06": (MC, "4.C06", "explicit-state simulation relation between every run and its relabelled twin on four layers (thermodynamics, solver, ideal curves, ideal process traces state by state); known-finding attribution for UNIQUAC by K1 signature + symmetric-gamma_2 stub",
             "With NRTL every output of the lattice equals its relabelled twin's with roles exchanged (activity coefficients 1e-11, fluxes/traces 2e-7..2e-6 per step), separation factors and selectivities invert; with UNIQUAC the only deviations are those the documented typo K1 produces (KNOWN-FINDING), anything that persists under the symmetric stub is a violation.",
             "twins run at precision 1e-10; back-flow states and permeate fractions that round to 0/1 are not judged"),
+    "C05": (MC, "4.C05", "explicit-state trace conformance of the permeance series of every non-ideal run against the returned fits (one constant factor and one lag per run), plus differential comparison of the returned fits with the public best-fit search on harness-extracted measurements and with the Arrhenius rule for single curves",
+            "Every step's permeance pair in the lattice equals the returned fit at that step's feed state times a run-constant factor fixed by the initial permeances (1 when none); the fits equal the public best fit of that component's data; single-curve fits scale with the membrane's activation energy.",
+            "find_best_fit taken as given (C16) and memoised; single-curve include_zero may be as passed or False"),
+    "C07": (MC, "4.C07", "explicit-state simulation relation between every run and its re-based twin (mass vs mole fraction, exact rational conversion) over point entry points, curves and their metrics, measurement extraction, non-ideal curves and all 4 process models state by state",
+            "Every entry point in the lattice gives the same fluxes, permeances, trajectories, metrics and measurement points for a mass-fraction input and the equivalent mole fraction; process models always report mass fractions.",
+            "twins run at precision 1e-10, compared at 2e-7 (1e-10 in vacuum); flux calculations slower than 20000 evaluations are not judged"),
 }
 def main():
     checks = []
